@@ -105,6 +105,14 @@ class C17(Property):
         nontriv_t = any(spec["shift"]) or s != 1.0
         ctx.nontrivial = (not used_by_tests) and nontriv_t
         idx = np.meshgrid(*[np.arange(n) for n in shape], indexing="ij")
+        # an earlier analysis on a sibling grid (same shape, other aspect ratio / spacing) must leave no trace
+        try:
+            sib = make_grid(shape, [spacing[0] * 3.0] + [x * 0.5 for x in spacing[1:]])
+            sib_field = ScalarField(sib, np.cos(2 * np.pi * idx[0] / shape[0]) + 0.3)
+            get_structure_factor(sib_field)
+            get_length_scale(sib_field, "structure_factor_maximum")
+        except Exception:  # noqa: BLE001 - not judged
+            pass
 
         def rel_ok(a, b, rtol):
             return math.isfinite(a) and math.isfinite(b) and abs(a - b) <= rtol * max(abs(a), abs(b))
